@@ -49,6 +49,9 @@ type Ctx struct {
 	notes    []string
 	analysed map[string]int
 	fnSeen   map[string]bool
+	prefix   string // prepended to rule names (obligations borrowed from another property)
+	// ifaceResults: the use-after-error rule also covers interface-typed results
+	ifaceResults bool
 }
 
 func newCtx(p *Prog, prop, tier string) *Ctx {
@@ -57,6 +60,7 @@ func newCtx(p *Prog, prop, tier string) *Ctx {
 }
 
 func (c *Ctx) add(st Status, rule, construct, pos, detail string, path []string, query bool) *Obl {
+	rule = c.prefix + rule
 	o := &Obl{Rule: rule, Construct: construct, Pos: pos, Status: st.String(), Detail: detail, Path: path, Query: query, st: st}
 	c.obls = append(c.obls, o)
 	if st != Info {
